@@ -426,11 +426,11 @@ class Taint:
             return any(self.derived(b, x, tainted) for x in o[1])
         return False
 
-    def walk(self, b, tainted, self_map, entry_kind, adt, depth=0):
+    def walk(self, b, tainted, self_map, entry_kind, adt, depth=0, chain=()):
         """tainted: set of origins (in b) that derive from the scratch; self_map: origin in b -> field path of self
         (for inner transforms reached through parameters)."""
         F = self.F
-        key = (b.id, frozenset(tainted), entry_kind)
+        key = (b.id, frozenset(tainted), entry_kind, tuple(x[0] for x in chain))
         if key in self._seen or depth > 8:
             return
         self._seen.add(key)
@@ -446,7 +446,7 @@ class Taint:
                     if self.derived(b, so, tainted):
                         ro = origin(F, b, t["args"][0])
                         self.req[adt].append((entry_kind, ro, kind, b.where(t), b.name))
-                        self.sites[adt].append((entry_kind, ro, kind, b.where(t), b.name, b, t))
+                        self.sites[adt].append((entry_kind, ro, kind, b.where(t), b.name, b, t, chain))
                 continue
             if not c.get("local"):
                 continue
@@ -462,7 +462,7 @@ class Taint:
                         if self.derived(b, origin(F, b, op), tainted):
                             nt.add(("param", k + 2))
                     if nt:
-                        self.walk(g, nt, self_map, entry_kind, adt, depth + 1)
+                        self.walk(g, nt, self_map, entry_kind, adt, depth + 1, chain + ((g.id, b, t, True),))
                 continue
             nt = set()
             for k, a in enumerate(t["args"]):
@@ -470,7 +470,7 @@ class Taint:
                     if self.derived(b, origin(F, b, a), tainted):
                         nt.add(("param", k + 1))
             if nt:
-                self.walk(g, nt, self_map, entry_kind, adt, depth + 1)
+                self.walk(g, nt, self_map, entry_kind, adt, depth + 1, chain + ((g.id, b, t, False),))
         # closures created here capture tainted values: analyse their bodies with the captured operands
         for bi, si, n in b.iter_nodes():
             if n["k"] == "=" and n["r"]["k"] == "agg" and n["r"].get("ak") == "closure":
